@@ -126,6 +126,8 @@ def run(repo: Repo, rep: Report, tier: str) -> None:
             diff = {k: (got[k], want[k]) for k in want if got[k] != want[k]}
             rep.violation("R02.4", ci.key, inst, f"format dialect declares something other than its documented native types / options: {diff}")
     rep.floor("R02.4", 3)
+    if getattr(rep, "borrowed", False):
+        return  # another property borrows main-body rules only
     from ..core import regget
     regget.report(repo, rep, "R02.6", {"first-match-in-order", "raise-otherwise", "real-type"})
     # rules of sibling properties that are necessary conditions of this one as well (same rule ids)
@@ -138,6 +140,10 @@ def run(repo: Repo, rep: Report, tier: str) -> None:
     _hc3.report(repo, rep, "R01.6", _hc3.type_param_collection_contract(repo), "mashumaro.core.meta.helpers::collect_type_params")
     from . import c19 as _c19
     _c19._hook_and_dispatch_contracts(repo, Only(rep, {"R19.8"}))
+    from ..core.report import Only as _OnlyX
+    from ..core import corpus as _corpusX
+    from . import c13 as _c13x
+    _c13x._slots(repo, _OnlyX(rep, {"R13.3"}), _corpusX.explore_all(repo, tier))
 
 _ADDENDUM = ' R02.6: the real body of Registry.get (strip Annotated, substitute type parameters, first non-None creator in registration order, UnserializableField otherwise) equals the model the dispatch simulation uses. Borrowed: R15.6 (nested builders inherit format and default dialect), R11.8 (pack_union helper shape and member order).'
 EXPLANATION += _ADDENDUM
@@ -148,3 +154,6 @@ LEVEL_TEXT += _ADD7
 _ADD21 = ' Borrowed: R19.8.'
 EXPLANATION += _ADD21
 LEVEL_TEXT += _ADD21
+_ADD22 = ' Borrowed: R13.3 (dialect cache slots per format and specialisation).'
+EXPLANATION += _ADD22
+LEVEL_TEXT += _ADD22
